@@ -62,3 +62,5 @@ Definition asort {V} (m : amap V) : amap V := fold_right ins_sorted [] m.
 Fixpoint ins_N (x : N) (l : list N) : list N :=
   match l with [] => [x] | y :: t => if N.leb x y then x :: l else y :: ins_N x t end.
 Definition sort_N (l : list N) : list N := fold_right ins_N [] l.
+
+Arguments aset : simpl never.
